@@ -2,7 +2,7 @@
 import os
 from . import core, boolfam
 
-RULE = ("TLC (GenRect.tla) enumerates ALL pairs of rectangles on the 4x4 grid in both orientations (40 000 inputs, the scope named by the "
+RULE = ("TLC enumerates complete scopes: GenRect3 (all triples of oriented rectangles on the 2x2 lattice), GenRect4 (doubled subject rectangle x all ordered clip pairs on the 2x3 lattice) and GenRect.tla: ALL pairs of rectangles on the 4x4 grid in both orientations (40 000 inputs, the scope named by the "
         "property); each is executed with 4 clip types x 4 fill rules x PreserveCollinear x ReverseSolution x paths/tree and judged cell by cell "
         "by TLC (exact, no tolerance), plus area and vertex-coordinate clauses; random self-overlapping rectilinear walks (incl. zero-width and "
         "repeated sections) on a 6x6 grid under scales 1, 3 (+2^40), 1000, 2^13 (+2^52); non-trivial = non-empty solution, distinct by (input, "
@@ -18,7 +18,8 @@ def run(ctx):
     nsh = 16
     stride_sel = 1   # every pair (exhaustive) in both tiers; quick uses the lite option set for 3/4 of the pairs
     for k in range(nsh):
-        J.append(boolfam.harness_job(ctx, i, "plain", {"fam": "in", "in": gen, "n": 0, "skip": k, "stride": nsh, "emb": "0", "cfg": "batch", "seed": s})); i += 1
+        # quick: every pair x 4 clip types x 4 fill rules x paths/tree (PreserveCollinear / ReverseSolution off); thorough: all 128 configurations
+        J.append(boolfam.harness_job(ctx, i, "plain", {"fam": "in", "in": gen, "n": 0, "skip": k, "stride": nsh, "emb": "0", "cfg": "batchlite" if q else "batch", "light": 1, "seed": s})); i += 1
     for k in range(6 if q else 16):
         J.append(boolfam.harness_job(ctx, i, "plain" if k % 2 else "hi", {"fam": "walk", "n": 40 if q else 250, "grid": 6, "emb": "0,5,2,3", "cfg": "batch", "seed": s * 100 + k})); i += 1
     # complete scope of three oriented rectangles on the 2x2 lattice (1+2 and 2+1): coincident copies, cancelling pairs, shared corners
@@ -26,10 +27,16 @@ def run(ctx):
     g3 = core.tlc_ok(core.tlc("GenRect3", "GenRect3.cfg", env={"OUT": gen3}, timeout=300), "GenRect3"); ctx.add_tlc(g3)
     ctx.extra["rect_triples_enumerated_by_tlc"] = core.count_lines(gen3)
     for k in range(4):
-        J.append(boolfam.harness_job(ctx, i, "plain", {"fam": "in", "in": gen3, "n": 0, "skip": k, "stride": 4, "emb": "0", "cfg": "batch" if not q else "batchlite", "seed": s})); i += 1
+        J.append(boolfam.harness_job(ctx, i, "plain", {"fam": "in", "in": gen3, "n": 0, "skip": k, "stride": 4, "emb": "0", "cfg": "batch" if not q else "batchlite", "light": 1, "seed": s})); i += 1
+    # a doubled subject rectangle (cancelling or reinforcing pair) against every ordered pair of oriented clip rectangles on the 2x3 lattice
+    gen4 = ctx.path("rect4.ndjson")
+    g4 = core.tlc_ok(core.tlc("GenRect4", "GenRect4.cfg", env={"OUT": gen4}, timeout=300), "GenRect4"); ctx.add_tlc(g4)
+    ctx.extra["doubled_subject_cases_enumerated_by_tlc"] = core.count_lines(gen4)
+    for k in range(8):
+        J.append(boolfam.harness_job(ctx, i, "plain", {"fam": "in", "in": gen4, "n": 0, "skip": k, "stride": 8, "emb": "0", "cfg": "batchlite" if q else "batch", "light": 1, "seed": s})); i += 1
     # many random rectangles (3-6) on a small lattice: stale horizontal segments / joins need several coincident horizontals
     for k in range(8 if q else 32):
-        J.append(boolfam.harness_job(ctx, i, "plain", {"fam": "rects", "n": 1500 if q else 10000, "grid": [3, 4, 5][k % 3], "emb": "0", "cfg": "batchlite", "seed": s * 100 + 40 + k})); i += 1
+        J.append(boolfam.harness_job(ctx, i, "plain", {"fam": "rects", "n": 1500 if q else 10000, "grid": [3, 4, 5][k % 3], "emb": "0", "cfg": "batchlite", "light": 1, "seed": s * 100 + 40 + k})); i += 1
     if not q:   # the rectangle pairs again at scale (2^13, +2^52) and on the HI_PRECISION build
         for k in range(nsh):
             J.append(boolfam.harness_job(ctx, i, "hi", {"fam": "in", "in": gen, "n": 0, "skip": k, "stride": nsh, "emb": "3", "cfg": "batch", "seed": s})); i += 1
